@@ -7,6 +7,14 @@ import time
 VERIF = os.path.dirname(os.path.dirname(os.path.abspath(__file__)))
 
 
+import re as _re
+
+
+def norm_fn(fn):
+    """closure indices are renumbered by unrelated edits in the same function: keys use `{closure}` without the index"""
+    return _re.sub(r"\{closure#\d+\}", "{closure}", fn)
+
+
 class CannotSee(Exception):
     """The checker could not see the code it must analyse (anchor/floor/fact failure): exit 2."""
 
